@@ -290,3 +290,57 @@ fn c04_set_block_sizes() {
     kani::cover!(r.is_ok());
     kani::cover!(a == 65536 + 44);
 }
+
+// ================================================================================================
+// Test constructors for other harness modules (struct literals: no SIMD reductions involved)
+// ================================================================================================
+
+/// A `Residual` with the given fields and the cached sums computed by plain loops.
+pub(crate) fn residual_from_raw(
+    partition_order: u8,
+    block_size: usize,
+    warmup_length: usize,
+    rice_params: Vec<u8>,
+    quotients: Vec<u32>,
+    remainders: Vec<u32>,
+) -> Residual {
+    let mut sum_quotients = 0usize;
+    let mut i = 0;
+    while i < quotients.len() {
+        sum_quotients += quotients[i] as usize;
+        i += 1;
+    }
+    let mut sum_rice_params = 0usize;
+    let mut i = 0;
+    while i < rice_params.len() {
+        sum_rice_params += rice_params[i] as usize;
+        i += 1;
+    }
+    Residual {
+        partition_order,
+        block_size,
+        warmup_length,
+        rice_params,
+        quotients,
+        remainders,
+        sum_quotients,
+        sum_rice_params,
+    }
+}
+
+/// C08: the sums cached by `Residual::from_parts` are the true sums, on BOTH sides of the
+/// `max * block_size < 2^32` switch between the SIMD wrapping sum and the plain sum.
+//@ unit props=C08,C01 tier=quick kind=bounded timeout=900 funcs="Residual::from_parts; find_max::<64>; wrapping_sum::<u32,32>" bound="4 quotients, every u32 value (both sides of the overflow-safety switch)"
+#[kani::proof]
+#[kani::unwind(66)]
+fn c08_residual_from_parts_sums() {
+    let q: [u32; 4] = kani::any();
+    let p: [u8; 2] = kani::any();
+    let r = Residual::from_parts(1, 4, 0, vec![p[0], p[1]], vec![q[0], q[1], q[2], q[3]], vec![0, 0, 0, 0]);
+    let true_sum = q[0] as usize + q[1] as usize + q[2] as usize + q[3] as usize;
+    assert!(r.sum_quotients() == true_sum);
+    assert!(r.sum_rice_params() == p[0] as usize + p[1] as usize);
+    assert!(r.partition_order() == 1 && r.block_size() == 4 && r.warmup_length() == 0);
+    kani::cover!(true_sum > u32::MAX as usize);
+    kani::cover!(true_sum < 100);
+}
